@@ -390,8 +390,8 @@ class t2data(object):
              self.output_times,
              self.selection,
              self.diffusion,
-             self.grid,
-             self.grid,
+             self.grid and self.grid.blocklist,
+             self.grid and self.grid.connectionlist,
              self.meshmaker,
              self.generatorlist,
              self.short_output,
